@@ -145,6 +145,10 @@ def check_case(ctx, cs):
             extract_and_compare(o["ex2"], ["after_translate"])
     elif op in ("transpose", "flip"):
         fn = operations.transpose if op == "transpose" else operations.flip
+        try:
+            next(iter(obj))            # an iteration over the surface left early beforehand
+        except Exception:
+            pass
         ok, r = _try(ctx, "operations." + op, tg, small, lambda: fn(obj))
         if ok:
             bad = same_def(project(r), o["res"])
